@@ -151,6 +151,8 @@ class GenChart:
                     else:
                         return None
                 else:
+                    if i in getattr(ch, "fallthrough", ()):
+                        return None         # an if/elif ladder without a final else: no status for anything it has no clause for
                     status, chart.temp.fun = return_status.SUPER, par
                     return status
                 if after is not None:
